@@ -13,6 +13,7 @@ import (
 	"path/filepath"
 	"sort"
 	"strconv"
+	"strings"
 
 	"golang.org/x/tools/go/ast/astutil"
 	"golang.org/x/tools/go/packages"
@@ -209,8 +210,8 @@ func (p *Parser) initializePackages(filename string) (*packages.Package, error) 
 		Fset: p.fset,
 	}
 
-	// A previous output of this file that no longer parses (cut off or zero-filled by a crash) must not
-	// keep the package from loading: it is about to be rewritten, so it is loaded as an empty file.
+	// A previous output file that no longer parses (cut off or zero-filled by a crash) must not keep the
+	// package from loading: it is loaded as an empty file until a run rewrites it.
 	cfg.Overlay = damagedOutputOverlay(filename)
 
 	// Load the specific file and its dependencies
@@ -248,26 +249,44 @@ func (p *Parser) initializePackages(filename string) (*packages.Package, error) 
 	return nil, errors.New("file is not in the same package")
 }
 
-// damagedOutputOverlay returns an overlay that replaces the existing output file of filename by an
-// empty file of the same package when that output file does not parse; nil otherwise.
+// damagedOutputOverlay returns an overlay that replaces, by an empty file of the same package, every
+// output file in the directory of filename (X_band.go next to its source X.go) that does not parse;
+// nil when there is none.
 func damagedOutputOverlay(filename string) map[string][]byte {
-	outputPath, err := filepath.Abs(outputFileName(filename))
+	dir, err := filepath.Abs(filepath.Dir(filename))
 	if err != nil {
 		return nil
 	}
-	content, err := os.ReadFile(outputPath)
+	outputs, err := filepath.Glob(filepath.Join(dir, "*"+filepath.Ext(outputFileName(filename))))
 	if err != nil {
-		return nil
-	}
-	if _, err := parser.ParseFile(token.NewFileSet(), outputPath, content, parser.SkipObjectResolution); err == nil {
-		return nil
-	}
-	source, err := parser.ParseFile(token.NewFileSet(), filename, nil, parser.PackageClauseOnly)
-	if err != nil || source.Name == nil {
 		return nil
 	}
 
-	return map[string][]byte{outputPath: []byte("package " + source.Name.Name + "\n")}
+	var overlay map[string][]byte
+	for _, outputPath := range outputs {
+		ext := filepath.Ext(outputPath)
+		sourcePath := strings.TrimSuffix(strings.TrimSuffix(outputPath, ext), "_band") + ext
+		if sourcePath == outputPath || outputFileName(sourcePath) != outputPath {
+			continue
+		}
+		content, err := os.ReadFile(outputPath)
+		if err != nil {
+			continue
+		}
+		if _, err := parser.ParseFile(token.NewFileSet(), outputPath, content, parser.SkipObjectResolution); err == nil {
+			continue
+		}
+		source, err := parser.ParseFile(token.NewFileSet(), sourcePath, nil, parser.PackageClauseOnly)
+		if err != nil || source.Name == nil {
+			continue
+		}
+		if overlay == nil {
+			overlay = make(map[string][]byte)
+		}
+		overlay[outputPath] = []byte("package " + source.Name.Name + "\n")
+	}
+
+	return overlay
 }
 
 // FindInjectDirectives finds all kessoku.Inject calls in the AST.
